@@ -25,7 +25,7 @@ LEVEL_TEXT = ("Analytic polar-stereographic grids (random pole, rotation, resolu
 LEVEL_NOTE = "Position error bound = 1.5*sqrt(tol)/sigma_min(J) with tol = 1e-7 (bilin_inv's stopping rule), J = local Jacobian in degrees per cell; trusts numpy/netCDF4 and the closed-form projection in the harness."
 RULE = ("cases: sample2d chunks (random fields/masks/positions/substitutes), roundtrip (one grid x subgrid x 2000 positions), e2e (lon/lat release + lon/lat output, sparse and dense). "
         "Non-trivial: positions within one cell of the rim of the valid region are present / masked or outside points present; distinct by grid parameters.")
-MANDATORY = ["post_sample2D", "roundtrip_positions", "rim_positions", "subgrid", "outside_value_zero", "outside_value_nan", "masked_corner",
+MANDATORY = ["post_sample2D", "roundtrip_positions", "longitudes_beyond_180", "rim_positions", "subgrid", "outside_value_zero", "outside_value_nan", "masked_corner",
              "all_masked", "outside_raises", "e2e_lonlat_release", "e2e_lonlat_output", "exact_bilinear_field"]
 ASSUMPTIONS = ["grids are conformal and smooth (polar stereographic) as the property quantifies; the branch cut of longitude is kept outside the grid"]
 TIMEOUT = {"quick": 600, "thorough": 3000}
@@ -102,7 +102,9 @@ def polar_spec(rng, imax: int, jmax: int) -> dict[str, float]:
     r = Rr * np.tan(np.radians(90.0 - lat0) / 2) / dx
     r = max(r, 1.5 * max(imax, jmax))
     a = np.radians(rng.uniform(35.0, 145.0))
-    return dict(kind="polar", xp=float(imax / 2 + r * np.cos(a)), yp=float(jmax / 2 + r * np.sin(a)), dx=dx, ylon=float(rng.uniform(-60, 60)))
+    # central meridian anywhere, incl. grids across the date line stored in the 0..360 or the -360..0 convention (continuous lon field)
+    ylon = float(rng.choice([rng.uniform(-60, 60), rng.uniform(150, 215), rng.uniform(-215, -150), 180.0]))
+    return dict(kind="polar", xp=float(imax / 2 + r * np.cos(a)), yp=float(jmax / 2 + r * np.sin(a)), dx=dx, ylon=ylon)
 
 
 def gen_cases(tier: str, seed: int) -> list[dict[str, Any]]:
@@ -277,6 +279,8 @@ def _case_roundtrip(case, R, wd, V, sit, cnt, keys):
         if np.any(Hres > TOL * 1.0001):
             V.append(C.viol(f"ll2xy returned a point whose lon/lat misses the target by more than the solver tolerance (H={Hres.max():.3g})", **desc))
     keys.add((imax, jmax, tuple(sub or []), round(pol["dx"])))
+    if float(np.max(tlon)) >= 180.0 or float(np.min(tlon)) < -180.0:
+        _bump(sit, "longitudes_beyond_180")
 
 
 def _case_e2e(case, wd, V, sit, cnt, keys):
@@ -331,6 +335,8 @@ def _case_e2e(case, wd, V, sit, cnt, keys):
     if len(r0.pid) != npart:
         V.append(C.viol(f"first record holds {len(r0.pid)} of {npart} released particles", **desc))
         return
+    if float(np.max(lon)) >= 180.0 or float(np.min(lon)) < -180.0:
+        _bump(sit, "longitudes_beyond_180")
     if bylonlat:
         _bump(sit, "e2e_lonlat_release", npart)
         for k in range(npart):
